@@ -2,6 +2,7 @@ package stick
 
 import (
 	"fmt"
+	"math"
 	"reflect"
 	"strconv"
 
@@ -86,6 +87,17 @@ type Boolean interface {
 func isNilPointer(v Value) bool {
 	r := reflect.ValueOf(v)
 	return r.Kind() == reflect.Ptr && r.IsNil()
+}
+
+// formatFloat renders a float the way the same number reads when an integer
+// type carries it: plain decimal notation up to 1e15 (fmt's %v switches to an
+// exponent at one million, so 1000000.0 printed as 1e+06 and compared unequal to
+// the integer 1000000). Very large and very small magnitudes keep the exponent.
+func formatFloat(f float64, bits int) string {
+	if a := math.Abs(f); a >= 1e6 && a < 1e15 {
+		return strconv.FormatFloat(f, 'f', -1, bits)
+	}
+	return strconv.FormatFloat(f, 'g', -1, bits)
 }
 
 // basicValue returns v as a value of the built-in type of its kind when v is a
@@ -261,13 +273,17 @@ func CoerceString(v Value) string {
 			return ""
 		}
 		return vc.String()
-	case float32, float64, int, int8, int16, int32, int64, uint, uint8, uint16, uint32, uint64:
+	case float32:
+		return formatFloat(float64(vc), 32)
+	case float64:
+		return formatFloat(vc, 64)
+	case int, int8, int16, int32, int64, uint, uint8, uint16, uint32, uint64:
 		return fmt.Sprintf("%v", vc)
 	case Number:
 		if isNilPointer(vc) {
 			return ""
 		}
-		return fmt.Sprintf("%v", vc.Number())
+		return formatFloat(vc.Number(), 64)
 	case Boolean:
 		if !isNilPointer(vc) && vc.Boolean() == true {
 			return "1" // Twig compatibility (aka PHP compatibility)
